@@ -694,8 +694,11 @@ func (e *runtimeEnv) buildFuncNode(l *leafImpl, cfg *LeafCfg, wait time.Duration
 			steps = append(steps, st)
 		}
 	}
-	add(0, flyt.WithMaxRetries(cfg.Budget), func(b *flyt.NodeBuilder) { b.WithMaxRetries(cfg.Budget) })
-	add(1, flyt.WithWait(wait), func(b *flyt.NodeBuilder) { b.WithWait(wait) })
+	reconf := (cfg.Budget+cfg.Wait+len(cfg.ExecS)+len(cfg.Fb))%3 == 0
+	if !reconf {
+		add(0, flyt.WithMaxRetries(cfg.Budget), func(b *flyt.NodeBuilder) { b.WithMaxRetries(cfg.Budget) })
+		add(1, flyt.WithWait(wait), func(b *flyt.NodeBuilder) { b.WithWait(wait) })
+	}
 	switch cfg.PrepS {
 	case "res":
 		add(2, flyt.WithPrepFunc(prepRes), func(b *flyt.NodeBuilder) { b.WithPrepFunc(prepRes) })
@@ -726,6 +729,22 @@ func (e *runtimeEnv) buildFuncNode(l *leafImpl, cfg *LeafCfg, wait time.Duration
 		if id%5 != 0 {
 			add(7+id%2, flyt.WithBatchErrorHandling(cont), func(b *flyt.NodeBuilder) { b.WithBatchErrorHandling(cont) })
 		}
+	}
+	// a third of the function-style nodes are RE-configured: built with decoy retry settings, the getters read (whatever a
+	// getter may cache must not outlive a later setting), then given their real settings — budget, a getter read in
+	// between, then the wait — through the option functions applied to the node's BaseNode
+	if reconf {
+		decoy := []any{flyt.WithMaxRetries(cfg.Budget + 2), flyt.WithWait(0)} // no wait at all: a stale wait would be too SHORT
+		b := flyt.NewNode(append(decoy, opts...)...)
+		_, _ = b.GetMaxRetries(), b.GetWait()
+		for _, st := range steps {
+			st(b)
+		}
+		_, _ = b.GetMaxRetries(), b.GetWait()
+		flyt.WithMaxRetries(cfg.Budget)(b.BaseNode)
+		_ = b.GetWait()
+		flyt.WithWait(wait)(b.BaseNode)
+		return b
 	}
 	b := flyt.NewNode(opts...)
 	for _, st := range steps {
